@@ -244,13 +244,19 @@ func (d *decoder) decodeArray() ([]RespValue, error) {
 	}
 	d.depth++
 	defer func() { d.depth-- }()
-	array := make([]RespValue, n)
-	for i := range array {
+	// Don't trust the announced length, the peer may never send that many
+	// elements: grow the array as the elements arrive.
+	prealloc := n
+	if prealloc > 1024 {
+		prealloc = 1024
+	}
+	array := make([]RespValue, 0, prealloc)
+	for i := int64(0); i < n; i++ {
 		r, err := d.decode()
 		if err != nil {
 			return nil, err
 		}
-		array[i] = *r
+		array = append(array, *r)
 	}
 	return array, nil
 }
